@@ -43,7 +43,7 @@ class ScriptFn:
         self.last = last
         self.body = body
         self.func = 'script'
-        self.args = ({'name': name},)
+        self.args = ({'name': name, 'statements': []},)
 
     def __call__(self, *a, **k):   # makes callable() true
         raise RuntimeError('reference function objects are called by the reference interpreter only')
